@@ -246,13 +246,20 @@ impl CountComparison {
 }
 
 impl Comparison {
+    // The derived ordering of `DbValue` orders values of different
+    // types by their variant. The comparisons are type strict so
+    // the ordering is meaningful only between values of the same type.
+    fn same_type(left: &DbValue, right: &DbValue) -> bool {
+        std::mem::discriminant(left) == std::mem::discriminant(right)
+    }
+
     pub(crate) fn compare(&self, left: &DbValue) -> bool {
         match self {
             Comparison::Equal(right) => left == right,
-            Comparison::GreaterThan(right) => left > right,
-            Comparison::GreaterThanOrEqual(right) => left >= right,
-            Comparison::LessThan(right) => left < right,
-            Comparison::LessThanOrEqual(right) => left <= right,
+            Comparison::GreaterThan(right) => Self::same_type(left, right) && left > right,
+            Comparison::GreaterThanOrEqual(right) => Self::same_type(left, right) && left >= right,
+            Comparison::LessThan(right) => Self::same_type(left, right) && left < right,
+            Comparison::LessThanOrEqual(right) => Self::same_type(left, right) && left <= right,
             Comparison::NotEqual(right) => left != right,
 
             Comparison::Contains(right) => match (left, right) {
